@@ -3,6 +3,7 @@
 
 pub mod huffman_table;
 pub mod kbuf;
+pub mod qpack_static;
 pub mod refmodel;
 #[cfg(kani)]
 mod stubs;
@@ -22,3 +23,9 @@ mod framecore;
 mod c02;
 #[cfg(kani)]
 mod c14;
+#[cfg(kani)]
+mod c11;
+#[cfg(kani)]
+mod c20;
+#[cfg(kani)]
+mod c11gen;
